@@ -155,6 +155,28 @@ def check_model(rep, drv, gen, rng, m, text, c, with_jax, with_c):
                         w = pt["states"][x] + dt * ref[f"d{x}_dt"]
                         if not close(float(ev[i]), w, S):
                             fail(f"{sch}[state_index({x!r})={i}] = {ev[i]!r}, expected {w!r}", inputs=pt, remove_unused=ru)
+        # ---- the hybrid scheme with every state stiff writes the slots of the generalized scheme, name by name
+        #      (states whose rate does not contain them get the Euler update wherever they sit in the layout)
+        if not failing and lay["sorted_states"]:
+            code_h = family.try_generate(rep, c, text, schemes=["hybrid_rush_larsen", "generalized_rush_larsen"],
+                                         stiff_states=list(lay["sorted_states"]), remove_unused=ru)
+            if not isinstance(code_h, Exception):
+                ns_h = impl.exec_module(code_h)
+                fns_h = impl.export_functions(code_h)
+                for pt, ref, S in pts:
+                    isx, st, ps = pipeline.inputs_sx(lay, pt)
+                    with np.errstate(all="ignore"):
+                        hv = np.array(impl.call_numpy(ns_h["hybrid_rush_larsen"], fns_h["hybrid_rush_larsen"]["args"], pt["t"], st, ps, dt=0.125), dtype=float)
+                        gv = np.array(impl.call_numpy(ns_h["generalized_rush_larsen"], fns_h["generalized_rush_larsen"]["args"], pt["t"], st, ps, dt=0.125), dtype=float)
+                    if hv.shape != gv.shape:
+                        fail(f"hybrid_rush_larsen (all states stiff) returns shape {hv.shape}, generalized {gv.shape}", inputs=pt, remove_unused=ru)
+                        break
+                    for x in lay["sorted_states"]:
+                        i = ns["state_index"](x)
+                        if np.isfinite(gv[i]) and not close(float(hv[i]), float(gv[i]), S + abs(float(gv[i]))):
+                            fail(f"hybrid_rush_larsen (all states stiff)[state_index({x!r})={i}] = {hv[i]!r}, generalized_rush_larsen gives {gv[i]!r}",
+                                 inputs=pt, remove_unused=ru)
+                    rep.count("hybrid_all_stiff_points")
         if failing:
             break
     # ---- argument orders (numpy generator; the jax one shares the code path and is sampled below)
